@@ -86,7 +86,13 @@ func (zp *ZoneParser) generate(l lex) (RR, bool) {
 	zp.sub = NewZoneParser(r, zp.origin, zp.file)
 	zp.sub.includeDepth, zp.sub.includeAllowed = zp.includeDepth, zp.includeAllowed
 	zp.sub.generateDisallowed = true
-	zp.sub.SetDefaultTTL(defaultTtl)
+	// Generated records without a TTL get the TTL an ordinary record would get at
+	// this point of the file ($TTL, last stated TTL or the parser's default).
+	if zp.defttl != nil {
+		zp.sub.defttl = zp.defttl
+	} else {
+		zp.sub.SetDefaultTTL(defaultTtl)
+	}
 	return zp.subNext()
 }
 
